@@ -9,6 +9,10 @@
 //	direct <sep|eof> <k> <typ> <patterns> <toks> <cons> <errs> -> …|err=<failed calls>|w=<handler writes received>
 //	iqdirect <sep|eof> <typ> <patterns> <toks> <c> -> h=…@<payload>=<toks> | fallback@<to>/<from>/<id> | nothing | err
 //	register <patterns> <pattern> <nil>           -> ok | panic
+//	elem <ctor> <stanzaNS> <patterns> <toks> <cons> -> patterns of the handlers that ran | - | fallback@… | err   (elem.go)
+//	overlap <mode> <warm> <patterns> <toksA> <consA> <at> <pre> <toksB> <consB> -> <dispatch A>&<dispatch B>      (elem.go)
+//	cut <k> <typ> <patterns> <toks> <cons> <cut>  -> <calls>|fail                                                 (elem.go)
+//	direct … <errs> <parsemap> / iqdirect … <c> <parsemap> -> addrerr / err when jid.Parse rejects an own address (elem.go)
 //
 // <typ> of children / direct / iqdirect is what the specification (specHdr) reads from the
 // stanza's own, i.e. unqualified, attributes; the model reads the start element itself.
